@@ -66,6 +66,9 @@ structure ReqInfo where
   hashed : Bool
   plainLen : Nat
   plain : Bytes
+  /-- the algorithm the CLIENT is configured with, when the client itself encodes the request (no preset header):
+  `""` for an uncompressed client. The name on the wire must be exactly this, and the server's verdict is judged by it. -/
+  configured : Option String := none
 
 structure S where
   cfg : Cfg := ⟨[], 0⟩
@@ -178,7 +181,8 @@ def handler : Handler S where
             | _ => false
           if needDec && reached && !haveDec then (s, ["obs bad-op dec-input-missing"]) else
           let info : ReqInfo := { sent := if garbage then none else some (handlerReads rdMode ⟨b, true⟩).data, wireLen := rq.wire.data.length,
-                                  hashed := !garbage, plainLen := b.length, plain := b }
+                                  hashed := !garbage, plainLen := b.length, plain := b,
+                                  configured := if mode == "client" && hdr == "" then some (if isCompressed s.ct then s.ct else "") else none }
           ({ s with cur := some info },
            [s!"obs sent enc={hex rq.encoding} n={if rq.encoding = "" then 0 else 1} wire={rq.wire.data.length}", showOutcome (!garbage) out])
       | _, _, _, _, _ => (s, ["obs bad-op"])
@@ -213,14 +217,26 @@ def handler : Handler S where
         match outcome with
         | none => { s with cur := none, fails := s!"sig=C16/harness/no-outcome {kind}" :: s.fails }
         | some o =>
-          let x : Exchange := { enabled := s.cfg.enabled, limit := s.cfg.limit, encoding := s.implEnc,
+          -- names are identities: what the client writes into Content-Encoding is the configured algorithm's own name …
+          let s := match info.configured with
+            | some t =>
+              if s.implEnc = t then s
+              else { s with fails := s!"sig=C16/client/content-encoding-is-not-the-configured-algorithm configured={t.quote} on-the-wire={s.implEnc.quote} enabled={s.cfg.enabled}" :: s.fails }
+            | none => s
+          -- … and whether the server must accept or reject is decided by the CONFIGURED algorithm, not by the label
+          let judged := info.configured.getD s.implEnc
+          let x : Exchange := { enabled := s.cfg.enabled, limit := s.cfg.limit, encoding := judged,
                                 sent := info.sent, wireLen := s.implWire, outcome := o,
                                 custom := s.custom.map (·.1) }
           match exchangeCheck x with
           | none => { s with cur := none }
           | some sig =>
+            let sig := if judged = s.implEnc then sig
+                       else if sig = "C16/roundtrip/rejected" then "C16/names/enabled-algorithm-rejected-under-another-name"
+                       else if sig = "C16/reject/disabled-encoding-reached-handler" then "C16/names/disabled-algorithm-accepted-under-another-name"
+                       else sig
             { s with cur := none,
-                     fails := s!"sig={sig} enabled={s.cfg.enabled} custom={s.custom.map (·.1)} limit={s.cfg.limit} encoding={s.implEnc.quote} body={info.plainLen} wire={s.implWire} saw={" ".intercalate (kind :: rest)}" :: s.fails }
+                     fails := s!"sig={sig} configured={judged.quote} enabled={s.cfg.enabled} custom={s.custom.map (·.1)} limit={s.cfg.limit} encoding={s.implEnc.quote} body={info.plainLen} wire={s.implWire} saw={" ".intercalate (kind :: rest)}" :: s.fails }
     | _ => s
   onEnd := fun s =>
     match s.fails.reverse with
